@@ -975,7 +975,11 @@ func expand(it item, ks []kind, thorough bool, f func(sc *scenario)) {
 		outcomes = []outcome{{"NO", false}, {"BAD", false}}
 	}
 	if len(it.Cmds) >= 3 {
-		outcomes = []outcome{{"OK", false}, {"NO", true}}
+		outcomes = []outcome{{"OK", false}, {"NO", true}, {"BAD", false}}
+		if ks[it.Cmds[2]].dupOf == "" {
+			// a full triple (thorough tier only): two outcomes per command
+			outcomes = []outcome{{"OK", false}, {"NO", true}}
+		}
 	}
 	p := it.Cmds
 	var orec func(prefix []outcome)
